@@ -33,6 +33,7 @@ run_one(hx_job *j)
 }
 
 static long nref, nhave;
+static const char *replay_kv; /* --keyvariant in replay mode: the recorded run's second set of key helpers */
 
 static void
 ref_spec(const char *kind, hx_spec *sp, hx_rng *g)
@@ -40,7 +41,10 @@ ref_spec(const char *kind, hx_spec *sp, hx_rng *g)
         hx_job j;
         sp->placement = GA_SLACK;
         sp->ctrcls = 0; /* this driver sets its own counter classes below */
-        if (hx_job_build(KM, sp, 1, &j) != 0)
+        /* (--keyvariant: the helpers of another variant prepare the keys of every second job - interchange - and this
+         * variant's own helpers those of the others; the choice is a function of the logged seed) */
+        hx_exec_mgr = M;
+        if (hx_job_build((sp->seed >> 17) & 1 ? KM : M, sp, 1, &j) != 0)
                 return;
         /* counter classes: push the 32-bit block counter (and for a third of the cases also the
          * bytes above it) towards the carry / wrap */
@@ -366,6 +370,10 @@ replay_file(const char *path)
                                 free_mb_mgr(M);
                         V = v;
                         M = KM = hx_mgr_new(V);
+                        if (replay_kv && hx_variant_by_name(replay_kv))
+                                KM = hx_mgr_new(hx_variant_by_name(replay_kv));
+                        if (!KM)
+                                KM = M;
                 }
                 hx_rng g;
                 hx_seed(&g, 1);
@@ -424,6 +432,7 @@ drv_ref(int argc, char **argv)
         static char tbuf[1 << 20];
         setvbuf(hx_trace, tbuf, _IOFBF, sizeof(tbuf));
         if (replay) {
+                replay_kv = keyvariant;
                 replay_file(replay);
                 fclose(hx_trace);
                 return 0;
